@@ -334,11 +334,7 @@ fn classify(c: &Case, rows: &[Val]) -> Option<&'static str> {
         if let Some(cause) = crate::c27::file_cause(&stack, &vs, sh) {
             return Some(cause);
         }
-        // the generator hands an (empty) validity bitmap to a fixed_size_list leaf array of zero slots:
-        // the "rows but no leaf slot, leaf still carries a bitmap" shape of the current_len defect
-        if c.n > 0 && leaf_is_fsl(&c.ty, &p) && crate::c27::flatten(&stack, &vs)[stack.len()].validity.is_empty() {
-            return Some(crate::c27::K_CURRENT_LEN);
-        }
+        let _ = leaf_is_fsl(&c.ty, &p);
     }
     None
 }
@@ -900,7 +896,12 @@ fn run_case(fs: &Fs, c: &Case, heavy: bool, cov: &mut Cov, viol: &mut Vec<Violat
             }
             let (_, _, whole) = build_batches(c);
             let rows = val::batch_rows(&whole).unwrap_or_default();
-            let cause = classify(c, &rows).or_else(|| classify_config(c)).or_else(|| if c.version.starts_with("2.") && c.version != "2.0" && fsl_all_items_null(c, &rows) { Some("fsl/all-items-null-cannot-be-written") } else { None });
+            let mut cause = classify(c, &rows).or_else(|| classify_config(c)).or_else(|| if c.version.starts_with("2.") && c.version != "2.0" && fsl_all_items_null(c, &rows) { Some("fsl/all-items-null-cannot-be-written") } else { None });
+            // shape class (unanalysed): only reads that project the column `c` alone fail, and `c` is a list of
+            // structs with a list child next to another leaf
+            if cause.is_none() && c.version != "2.0" && c.version != "0.1" && c.ty.skeleton().contains("list<struct<list<") && fr.fails.iter().all(|(k, _, _)| k.starts_with("projection-c/")) {
+                cause = Some("projection/list-of-struct-with-list-child-read-alone");
+            }
             for (k, d, req) in fr.fails {
                 cov.outcome(&format!("FAIL/{}/{}", c.version, cause.unwrap_or("unclassified")));
                 let key = match cause {
